@@ -1618,6 +1618,13 @@ where
                     if let Ok(out2) = mmv_base::fmtutil::fmt_debug_flags::<KD>(cx, &slot.c.m, spec) {
                         cx.chk(P19, out2 == want2, "container-format-flags", || format!("Debug with {}: rendered {out2:?}, the standard set rendering of the same entries is {want2:?}", mmv_base::fmtutil::FLAG_NAMES[spec]));
                     }
+                    // Display under width / fill / sign / precision options: the one layout, every
+                    // element rendered the same way (with the options or plainly)
+                    let dspec = (b as usize / mmv_base::fmtutil::NFLAGS) % mmv_base::fmtutil::NDSPEC;
+                    let ks: Vec<(String, String)> = real.iter().map(|k| (mmv_base::fmtutil::ref_display_spec(k, dspec), tl::outside(|| format!("{k}")))).collect();
+                    if let Ok(out3) = mmv_base::fmtutil::fmt_display_spec::<KD>(cx, &slot.c.m, dspec) {
+                        cx.chk(P19, mmv_base::fmtutil::display_spec_accepts(&out3, &ks, None), "display-options", || format!("Display with {}: rendered {out3:?}; elements rendered with the options / plainly: {:?} / {:?}", mmv_base::fmtutil::DSPEC_NAMES[dspec], ks.iter().map(|k| k.0.clone()).collect::<Vec<_>>(), ks.iter().map(|k| k.1.clone()).collect::<Vec<_>>()));
+                    }
                     tl::outside(|| drop(real));
                 }
                 Err(p) => fault = unexpected(cx, false, P19, &p),
